@@ -367,8 +367,13 @@ func (w *worker) execWriter(i int, th Thread, tag string, conc bool) []string {
 				name := fmt.Sprintf("/d%d", st.nds)
 				st.nds++
 				var opts []hdf5.DatasetOption
-				if op.B%3 == 0 && n >= 4 {
+				if op.B%3 != 1 && n >= 4 {
 					opts = append(opts, hdf5.WithChunkDims([]uint64{uint64(n/2 + 1)}))
+					// every second chunked dataset is filtered, with the same settings in every writer of the program (whatever a
+					// filter keeps between calls is then in use by all of them at once)
+					if op.A%2 == 0 {
+						opts = append(opts, hdf5.WithShuffle(), hdf5.WithGZIPCompression(6), hdf5.WithFletcher32())
+					}
 				}
 				switch writerTypes[ti].name {
 				case "str":
